@@ -15,6 +15,7 @@ import Enc.Spec.Json.Cyclic
 import Enc.Driver.JsonFields
 import Enc.Driver.JsonAny
 import Enc.Driver.JsonCodec
+import Enc.Driver.JsonCodecDec
 import Enc.Driver.JsonTyped
 import Enc.Spec.Json.RoundTrip
 import Enc.Model.Json.MapOrder
@@ -214,6 +215,9 @@ def handle (op : String) (args : List String) : Option (String × String × Stri
   | "json.dectyped", args => Driver.JsonTyped.handle op args
   | "json.dectypedcls", args => Driver.JsonTyped.handle op args
   | "json.codecchoice", [d] => Driver.JsonCodec.run d
+  | "json.codecchoicedec", [d, v] => Driver.JsonCodecDec.run d v
+  | "json.codectreedec", [d] => Driver.JsonCodecDec.runTree d
+  | "json.codeceqdec", [d] => Driver.JsonCodecDec.runEq d
   | "json.codectree", [d] => Driver.JsonCodec.runTree d
   | "json.codeceq", [d] => Driver.JsonCodec.runEq d
   | "json.fields", [d] => Driver.JsonFields.run d
